@@ -29,3 +29,6 @@ func (s *Service) VerifPutEntry(name, key string, kind partitions.Kind, value []
 	e.SetTimestamp(timestamp)
 	return f.storage.Put(hkey, e)
 }
+
+// VerifOwnedPartitions returns the number of partitions this member owns, as the eviction code sees it.
+func (s *Service) VerifOwnedPartitions() uint64 { return s.rt.OwnedPartitionCount() }
